@@ -135,12 +135,12 @@ type vCmd struct {
 }
 
 type vResp struct {
-	OK         bool     `json:"ok"`
-	Err        string   `json:"err,omitempty"`
-	Events     []vEvent `json:"events,omitempty"`
-	Goroutines int      `json:"goroutines,omitempty"`
-	Stacks     []string `json:"stacks,omitempty"`
-	Sockets    int      `json:"sockets,omitempty"`
+	OK         bool               `json:"ok"`
+	Err        string             `json:"err,omitempty"`
+	Events     []vEvent           `json:"events,omitempty"`
+	Goroutines int                `json:"goroutines,omitempty"`
+	Stacks     []string           `json:"stacks,omitempty"`
+	Sockets    int                `json:"sockets,omitempty"`
 	Gathered   map[string]float64 `json:"gathered,omitempty"`
 }
 
